@@ -283,6 +283,11 @@ def run(F, R, tier):
                         return clo.get("k") == "Closure" and is_ordering_test(clo["body"]["value"])
                     if e.get("k") == "Block" and not e["stmts"] and "expr" in e:
                         return is_ordering_test(e["expr"])
+                    if e.get("k") == "Match":
+                        # `match best { Some(b) => b.cmp(v)...is_lt(), None => true }` (first candidate always wins)
+                        tests = [is_ordering_test(a_["body"]) for a_ in e["arms"]]
+                        firsts = [peel(a_["body"]).get("v") is True and "Option::None" in pat_text(a_["pat"]) for a_ in e["arms"]]
+                        return any(tests) and all(t_ or f_ for t_, f_ in zip(tests, firsts))
                     if e.get("k") == "MethodCall" and e["name"] in ("is_lt", "is_gt", "is_le", "is_ge"):
                         r = peel(e["recv"])
                         while r.get("k") == "MethodCall" and r["name"] in ("then_with", "then"):
